@@ -1,7 +1,7 @@
 (** Round trip of the derived encoders, generically over type descriptions:
     [ddec d (denc d tag v) = v] for every well-formed description and every
     value of that type, with anything following the encoding. *)
-From Coq Require Import NArith ZArith List Bool Lia ZifyN ZifyBool.
+From Coq Require Import NArith ZArith List Bool Lia ZifyN ZifyBool Sorted.
 From RsM Require Import Model.Tlv Model.TlvDerive Proofs.TlvFacts Proofs.TlvTotal Proofs.TlvWriter
   Proofs.TlvRoundtrip Proofs.TlvScalar Proofs.TlvDeriveInt Proofs.TlvDeriveFacts.
 Import ListNotations.
@@ -235,6 +235,195 @@ Proof.
   - rewrite Hf. cbn [rbind]. rewrite IH. reflexivity.
 Qed.
 
+(** * The [assume_ordered] flavour ([scan_ctx], the sequence threaded through the fields) *)
+
+(** where [scan_ctx k] stops among the children [cs], and what it returns *)
+Fixpoint scan_spec (k : N) (cs : list tree) : option tree * list tree :=
+  match cs with
+  | [] => (None, [])
+  | c :: r =>
+      match root_tag c with
+      | TgCtx k' =>
+          if k' =? k then (Some c, c :: r)
+          else if k <? k' then (None, c :: r)
+          else scan_spec k r
+      | _ => scan_spec k r
+      end
+  end.
+
+Lemma scan_ctx_loop_S f s ctx :
+  scan_ctx_loop (S f) s ctx =
+  let! cur := current s in
+  let! r := (if is_nil cur then ROk (Some cur)
+             else
+               let! oc := el_try_ctx cur in
+               match oc with
+               | Some c =>
+                   if c =? ctx then ROk (Some cur)
+                   else if ctx <? c then ROk (Some [])
+                   else ROk None
+               | None => ROk None
+               end) in
+  match r with
+  | Some e => ROk (e, s)
+  | None => let! nx := container_next s in scan_ctx_loop f nx ctx
+  end.
+Proof. reflexivity. Qed.
+
+Lemma current_tree x rest : wf_tree x -> current (encode x ++ rest) = ROk (encode x ++ rest).
+Proof.
+  intros Hw. destruct (encode_control x rest Hw) as (c & Hc & Hend).
+  rewrite (current_control _ _ Hc), Hend. reflexivity.
+Qed.
+
+Lemma current_end rest : current (w_end ++ rest) = ROk [].
+Proof. rewrite (current_control _ _ (end_control rest)). reflexivity. Qed.
+
+Lemma scan_ctx_loop_trees cs :
+  wf_list cs -> forall fuel k rest,
+  (length cs < fuel)%nat -> blen (encode_list cs ++ w_end ++ rest) < two63 ->
+  scan_ctx_loop fuel (encode_list cs ++ w_end ++ rest) k =
+  ROk (match fst (scan_spec k cs) with
+       | Some _ => encode_list (snd (scan_spec k cs)) ++ w_end ++ rest
+       | None => []
+       end,
+       encode_list (snd (scan_spec k cs)) ++ w_end ++ rest).
+Proof.
+  induction 1 as [|c r Hc Hr IH]; intros fuel k rest Hf Hb.
+  - destruct fuel as [|fuel]; [cbn in Hf; lia|]. rewrite scan_ctx_loop_S.
+    unfold encode_list. cbn [flat_map app scan_spec fst snd]. rewrite current_end. reflexivity.
+  - destruct fuel as [|fuel]; [cbn in Hf; lia|]. rewrite scan_ctx_loop_S.
+    rewrite encode_list_cons in *. rewrite current_tree by assumption. cbn [rbind].
+    rewrite encode_not_nil. rewrite encode_try_ctx by assumption. cbn [rbind scan_spec].
+    assert (Hb' : blen (encode_list r ++ w_end ++ rest) < two63) by (rewrite blen_app in Hb; lia).
+    cbn [length] in Hf.
+    assert (Hskip : (let! nx := container_next (encode c ++ encode_list r ++ w_end ++ rest) in
+                     scan_ctx_loop fuel nx k) =
+                    ROk (match fst (scan_spec k r) with
+                         | Some _ => encode_list (snd (scan_spec k r)) ++ w_end ++ rest
+                         | None => []
+                         end, encode_list (snd (scan_spec k r)) ++ w_end ++ rest)).
+    { rewrite container_next_tree by assumption. cbn [rbind]. apply IH; [lia|exact Hb']. }
+    destruct (root_tag c) as [|k'| | | | | |]; try exact Hskip.
+    destruct (N.eqb_spec k' k).
+    + cbn [fst snd]. rewrite encode_list_cons. reflexivity.
+    + destruct (N.ltb_spec k k').
+      * cbn [fst snd]. rewrite encode_list_cons. reflexivity.
+      * exact Hskip.
+Qed.
+
+Lemma scan_spec_suffix k cs : exists pre, cs = pre ++ snd (scan_spec k cs).
+Proof.
+  induction cs as [|c r [pre IH]]; [exists []; reflexivity|]. cbn [scan_spec].
+  destruct (root_tag c) as [|k'| | | | | |]; try (exists (c :: pre); cbn [app]; f_equal; exact IH).
+  destruct (k' =? k); [exists []; reflexivity|].
+  destruct (k <? k'); [exists []; reflexivity|]. exists (c :: pre). cbn [app]. f_equal. exact IH.
+Qed.
+
+Lemma scan_ctx_trees cs k rest :
+  wf_list cs -> blen (encode_list cs ++ w_end ++ rest) < two63 ->
+  seq_scan_ctx (encode_list cs ++ w_end ++ rest) k =
+  ROk (match fst (scan_spec k cs) with
+       | Some _ => encode_list (snd (scan_spec k cs)) ++ w_end ++ rest
+       | None => []
+       end,
+       encode_list (snd (scan_spec k cs)) ++ w_end ++ rest).
+Proof.
+  intros Hcs Hb. unfold seq_scan_ctx. apply scan_ctx_loop_trees; auto.
+  rewrite app_length. pose proof (length_le_encode_list cs). lia.
+Qed.
+
+(** what the ordered decoder finds for the fields, threading the position *)
+Fixpoint ord_found (cs : list tree) (fs : list (N * dty)) (vs : list dval) : Prop :=
+  match fs, vs with
+  | [], [] => True
+  | (ft, fd) :: fr, fv :: vr =>
+      (match scan_spec ft cs with
+       | (Some x, cs') =>
+           (exists r, cs' = x :: r) /\
+           forall rest, blen (encode x ++ rest) < two63 -> ddec fd (encode x ++ rest) = ROk fv
+       | (None, _) => ddec fd [] = ROk fv
+       end) /\ ord_found (snd (scan_spec ft cs)) fr vr
+  | _, _ => False
+  end.
+
+Lemma wf_list_suffix pre cs : wf_list (pre ++ cs) -> wf_list cs.
+Proof. intros H. apply Forall_app in H. tauto. Qed.
+
+Lemma blen_suffix pre cs tail :
+  blen (encode_list (pre ++ cs) ++ tail) < two63 -> blen (encode_list cs ++ tail) < two63.
+Proof.
+  unfold encode_list. rewrite flat_map_app, <- app_assoc, blen_app. lia.
+Qed.
+
+Lemma struct_fields_decode_ordered fs : forall cs vs rest,
+  wf_list cs -> blen (encode_list cs ++ w_end ++ rest) < two63 ->
+  ord_found cs fs vs ->
+  (fix go (fs : list (N * dty)) (sq : bytes) : rres (list dval) :=
+     match fs with
+     | [] => ROk []
+     | (ft, fd) :: fr =>
+         let! r := seq_scan_ctx sq ft in
+         let! x := ddec fd (fst r) in
+         let! xs := go fr (snd r) in
+         ROk (x :: xs)
+     end) fs (encode_list cs ++ w_end ++ rest) = ROk vs.
+Proof.
+  induction fs as [|[ft fd] fr IH]; intros cs vs rest Hw Hb H.
+  - destruct vs; [reflexivity|contradiction].
+  - destruct vs as [|fv vr]; [contradiction|]. cbn [ord_found] in H. destruct H as [Hf Hr].
+    rewrite scan_ctx_trees by assumption. cbn [rbind fst snd].
+    destruct (scan_spec_suffix ft cs) as (pre & Epre).
+    assert (Hw' : wf_list (snd (scan_spec ft cs))) by (rewrite Epre in Hw; eapply wf_list_suffix; eauto).
+    assert (Hb' : blen (encode_list (snd (scan_spec ft cs)) ++ w_end ++ rest) < two63)
+      by (rewrite Epre in Hb; eapply blen_suffix; eauto).
+    destruct (scan_spec ft cs) as [[x|] cs'] eqn:Es; cbn [fst snd] in *.
+    + destruct Hf as [(r & ->) Hd]. rewrite encode_list_cons in *.
+      rewrite Hd by exact Hb'. cbn [rbind]. rewrite <- encode_list_cons.
+      rewrite (IH _ vr rest Hw'); [reflexivity| |exact Hr]. rewrite encode_list_cons. exact Hb'.
+    + rewrite Hf. cbn [rbind]. rewrite (IH _ vr rest Hw' Hb' Hr). reflexivity.
+Qed.
+
+(** strictly increasing field tags *)
+Definition tags_sorted (fs : list (N * dty)) : Prop := StronglySorted N.lt (map fst fs).
+
+Lemma scan_spec_skip k pre cs :
+  (forall x, In x pre -> exists j, root_tag x = TgCtx j /\ j < k) ->
+  scan_spec k (pre ++ cs) = scan_spec k cs.
+Proof.
+  induction pre as [|p pre IH]; intros H; [reflexivity|]. cbn [app scan_spec].
+  destruct (H p (or_introl eq_refl)) as (j & -> & Hj).
+  destruct (N.eqb_spec j k); [lia|]. destruct (N.ltb_spec k j); [lia|].
+  apply IH. intros x Hx. apply H. right. exact Hx.
+Qed.
+
+Lemma fields_ord_found fs vs cs :
+  fields_trees fs vs cs -> tags_sorted fs ->
+  forall pre, (forall x, In x pre -> exists j, root_tag x = TgCtx j /\ forall k, In k (map fst fs) -> j < k) ->
+  ord_found (pre ++ cs) fs vs.
+Proof.
+  induction 1 as [|ft fd fr vr cs Ho H IH|ft fd fv x fr vr cs Hw Hr Hd H IH]; intros Hs pre Hpre.
+  - exact I.
+  - cbn [map fst] in Hs. apply StronglySorted_inv in Hs as [Hs Hall]. cbn [ord_found].
+    rewrite scan_spec_skip.
+    2:{ intros y Hy. destruct (Hpre y Hy) as (j & Hj & Hlt). exists j. split; [exact Hj|]. apply Hlt. left. reflexivity. }
+    assert (Hspec : scan_spec ft cs = (None, cs)).
+    { pose proof (fields_trees_tags _ _ _ H) as Ht. destruct Ht as [|c r (k & Hk & Hin) Hrest]; [reflexivity|].
+      cbn [scan_spec]. rewrite Hk. rewrite Forall_forall in Hall. specialize (Hall k Hin).
+      cbn [fst] in Hall. destruct (N.eqb_spec k ft); [lia|]. destruct (N.ltb_spec ft k); [reflexivity|lia]. }
+    rewrite Hspec. cbn [snd]. split.
+    + destruct fd; try discriminate. reflexivity.
+    + apply (IH Hs []). intros y [].
+  - cbn [map fst] in Hs. apply StronglySorted_inv in Hs as [Hs Hall]. cbn [ord_found].
+    rewrite scan_spec_skip.
+    2:{ intros y Hy. destruct (Hpre y Hy) as (j & Hj & Hlt). exists j. split; [exact Hj|]. apply Hlt. left. reflexivity. }
+    cbn [scan_spec]. rewrite Hr, N.eqb_refl. cbn [snd]. split.
+    + split; [eexists; reflexivity|exact Hd].
+    + apply (IH Hs [x]). intros y [<-|[]]. exists ft. split; [exact Hr|].
+      intros k Hk. rewrite Forall_forall in Hall. specialize (Hall k Hk). cbn [fst] in Hall. exact Hall.
+Qed.
+
+
 (** * The main induction *)
 
 Lemma wf_field_cases d : wf_field d -> (exists d', d = DOption d' /\ wf_dty d') \/ (is_option d = false /\ wf_dty d).
@@ -410,11 +599,11 @@ Proof.
       * cbn [rbind]. rewrite Hlen, Nat.sub_diag. cbn [repeat]. rewrite app_nil_r. reflexivity.
       * intros i Hi. apply Forall2_len in H2. apply N.ltb_lt. lia. }
   - (* DStruct *)
-    right. cbn [wf_field] in Hwf. apply wf_struct in Hwf as (Hnd & -> & Hfs).
+    right. cbn [wf_field] in Hwf. apply wf_struct in Hwf as (Hnd & Hord & Hfs).
     destruct v; try contradiction. cbn [has_ty] in Hty.
     cbn [denc] in Henc. apply bind_ok in Henc as (body & Hbody & Henc). injection Henc as <-.
     assert (Hl : exists cs, body = encode_list cs /\ fields_trees fs l cs).
-    { clear Hnd. revert l body Hty Hbody.
+    { clear Hnd Hord. revert l body Hty Hbody.
       induction IH as [|[ft fd] fr Hfd Hfr IHfr]; intros l body Hty Hbody.
       - destruct l; [|contradiction]. injection Hbody as <-. exists []. split; constructor.
       - destruct l as [|fv vr]; [contradiction|]. destruct Hty as [Hx Hall].
@@ -430,13 +619,18 @@ Proof.
     apply (mk_good _ _ _ _ (Node t k cs));
       [reflexivity|apply wf_node; split; assumption|reflexivity|intros _ _; discriminate|].
     { change (forall rest, blen (encode (Node t k cs) ++ rest) < two63 ->
-                ddec (DStruct k false fs) (encode (Node t k cs) ++ rest) = ROk (XRec l)).
-      intros rest Hb.
-      remember (encode (Node t k cs) ++ rest) as el eqn:Eel. cbn [ddec]. subst el.
-      rewrite el_kind_node. cbn [rbind].
-      rewrite (struct_fields_decode cs rest fs l Hwcs); [reflexivity| |].
-      * rewrite encode_node, blen_app in Hb. lia.
-      * apply (fields_found fs l cs Hft Hnd []). intros x []. }
+                ddec (DStruct k o fs) (encode (Node t k cs) ++ rest) = ROk (XRec l)).
+      intros rest Hb. destruct o eqn:Eo.
+      - remember (encode (Node t k cs) ++ rest) as el eqn:Eel. cbn [ddec]. subst el.
+        rewrite el_kind_node. cbn [rbind].
+        rewrite (struct_fields_decode_ordered fs cs l rest Hwcs); [reflexivity| |].
+        + rewrite encode_node, blen_app in Hb. lia.
+        + apply (fields_ord_found fs l cs Hft (Hord eq_refl) []). intros x [].
+      - remember (encode (Node t k cs) ++ rest) as el eqn:Eel. cbn [ddec]. subst el.
+        rewrite el_kind_node. cbn [rbind].
+        rewrite (struct_fields_decode cs rest fs l Hwcs); [reflexivity| |].
+        + rewrite encode_node, blen_app in Hb. lia.
+        + apply (fields_found fs l cs Hft Hnd []). intros x []. }
   - (* DEnum *)
     right. cbn [wf_field] in Hwf. apply wf_enum in Hwf as (-> & Hnd & Hvs).
     destruct v; try contradiction. cbn [has_ty] in Hty.
